@@ -1088,4 +1088,65 @@ theorem foldl_max_mem (xs : List Nat) (a : Nat) : xs.foldl max a = a ∨ xs.fold
 /-- ASCII text as bytes (for readable statements about names) -/
 def ascii (s : String) : Bytes := s.toList.map fun c => UInt8.ofNat c.toNat
 
+/-! ## Part 7: access histories -/
+
+/-- every filled cache slot holds what a fresh computation of that view gives -/
+def Cache.Valid (content : Nat → Val → Py Val) (ss : List Setting) (c : Cache) : Prop :=
+  (∀ m, c.rawSettings = some m → settingsMap content ss .name false true = .ok m) ∧
+  (∀ m, c.rawSettingsByIndex = some m → settingsMap content ss .const false true = .ok m) ∧
+  (∀ m, c.settings = some m → settingsMap content ss .name true true = .ok m) ∧
+  (∀ m, c.settingsByIndex = some m → settingsMap content ss .const true true = .ok m)
+
+theorem Cache.valid_empty (content : Nat → Val → Py Val) (ss : List Setting) : Cache.Valid content ss {} :=
+  ⟨fun _ h => (by cases h), fun _ h => (by cases h), fun _ h => (by cases h), fun _ h => (by cases h)⟩
+
+theorem cachedView_spec (slot : Option (List (Key × Val))) (compute : Py (List (Key × Val)))
+    (h : ∀ m, slot = some m → compute = .ok m) :
+    (cachedView slot compute).1 = compute ∧ ∀ m, (cachedView slot compute).2 = some m → compute = .ok m := by
+  unfold cachedView
+  cases slot with
+  | some m => simp [h m rfl]
+  | none =>
+    cases compute with
+    | ok m => simp
+    | error e => simp
+
+theorem access_valid (content : Nat → Val → Py Val) (ss : List Setting) (c : Cache)
+    (hc : c.Valid content ss) (op : Op) :
+    (access content ss c op).1 = answer content ss op ∧ (access content ss c op).2.Valid content ss := by
+  obtain ⟨h1, h2, h3, h4⟩ := hc
+  cases op with
+  | rawSettings =>
+    obtain ⟨a, b⟩ := cachedView_spec c.rawSettings _ h1
+    obtain ⟨a0, _⟩ := cachedView_spec none (settingsMap content ss .name false true) (fun _ h => by cases h)
+    exact ⟨by simp only [answer, access]; rw [a, a0], b, h2, h3, h4⟩
+  | rawSettingsByIndex =>
+    obtain ⟨a, b⟩ := cachedView_spec c.rawSettingsByIndex _ h2
+    obtain ⟨a0, _⟩ := cachedView_spec none (settingsMap content ss .const false true) (fun _ h => by cases h)
+    exact ⟨by simp only [answer, access]; rw [a, a0], h1, b, h3, h4⟩
+  | settings =>
+    obtain ⟨a, b⟩ := cachedView_spec c.settings _ h3
+    obtain ⟨a0, _⟩ := cachedView_spec none (settingsMap content ss .name true true) (fun _ h => by cases h)
+    exact ⟨by simp only [answer, access]; rw [a, a0], h1, h2, b, h4⟩
+  | settingsByIndex =>
+    obtain ⟨a, b⟩ := cachedView_spec c.settingsByIndex _ h4
+    obtain ⟨a0, _⟩ := cachedView_spec none (settingsMap content ss .const true true) (fun _ h => by cases h)
+    exact ⟨by simp only [answer, access]; rw [a, a0], h1, h2, h3, b⟩
+  | settingsMap it p q => exact ⟨rfl, h1, h2, h3, h4⟩
+  | settingEnums => exact ⟨rfl, h1, h2, h3, h4⟩
+  | maxSettingEnum => exact ⟨rfl, h1, h2, h3, h4⟩
+  | settingsTuple => exact ⟨rfl, h1, h2, h3, h4⟩
+
+theorem runHistory_valid (content : Nat → Val → Py Val) (ss : List Setting) (ops : List Op) :
+    ∀ c : Cache, c.Valid content ss →
+      (runHistory content ss c ops).1 = ops.map (answer content ss) ∧
+      (runHistory content ss c ops).2.Valid content ss := by
+  induction ops with
+  | nil => intro c hc; exact ⟨rfl, hc⟩
+  | cons op ops ih =>
+    intro c hc
+    obtain ⟨ha, hv⟩ := access_valid content ss c hc op
+    obtain ⟨h1, h2⟩ := ih _ hv
+    simp only [runHistory, List.map_cons]
+    exact ⟨by rw [ha, h1], h2⟩
 end C02
